@@ -97,6 +97,7 @@ class MutualInfoClimateNetwork(ClimateNetwork):
         ClimateNetwork.__init__(self, grid=self.data.grid,
                                 similarity_measure=self._similarity_measure,
                                 threshold=threshold,
+                                link_density=link_density,
                                 non_local=non_local,
                                 directed=False,
                                 node_weight_type=node_weight_type,
